@@ -10,7 +10,7 @@
  *   W0  the head, W1 its successor    C   some member the insertion walk has reached, N its successor
  *   P / S  predecessor / successor of the operand in remove
  * far ends are the opaque non-dereferenceable address OPAQUE.  Local shape invariant of a well-formed list:
- *   head_->prev == NULL;  n->next == m  ==>  m->prev == n  and  n->due <= m->due.
+ *   head_->prev == NULL;  if n->next == m then m->prev == n and n->due <= m->due.
  * The insertion walk is verified at its cut point (loop head); insert additionally has an M3 bounded global cross-check.
  * Bodies marked @BODY / @EXPR / @LOOPCOND / @LOOPBODY are extracted from /repo on every run. */
 #include <stddef.h>
@@ -89,17 +89,16 @@ static void insert__loop0(struct intrusive_heap* self, item_t* item, item_t** in
 }
 #define VF_LOOP0 insert__loop0(self, item, &insertAfter)
 
+/* loop body segment: {invariant and loop condition} body {invariant}; the loop condition is the extracted text */
+#define insertAfter (*insertAfter_p)
 int insert__loop0_body(struct intrusive_heap* self, item_t* item, item_t** insertAfter_p)
-__CPROVER_requires(self == &H && item == &IT && *insertAfter_p == &C && C.timerNext_ == &N && N.timerPrev_ == &C && C.dueTime_ <= IT.dueTime_ && N.dueTime_ <= IT.dueTime_)
+__CPROVER_requires(self == &H && item == &IT && *insertAfter_p == &C && (C.timerNext_ == NULL || (C.timerNext_ == &N && N.timerPrev_ == &C)) && C.dueTime_ <= IT.dueTime_)
+__CPROVER_requires(/*@LOOPCOND insert.loop0.cond*/)
 __CPROVER_assigns(*insertAfter_p)
 __CPROVER_ensures(__CPROVER_return_value == VF_X_CONTINUE)
 __CPROVER_ensures(*insertAfter_p == &N && N.dueTime_ <= IT.dueTime_) /* one step: move to the successor, which is again a member not later than the item */
-{
-#define insertAfter (*insertAfter_p)
-  VF_A(/*@LOOPCOND insert.loop0.cond*/, "the step segment is entered with the loop condition true");
 /*@LOOPBODY insert.loop0.body*/
 #undef insertAfter
-}
 
 void intrusive_heap_insert(struct intrusive_heap* self, item_t* item)
 __CPROVER_requires(NOT_LINKED_IT) /*P*/ /* an item is never linked into the heap twice */
@@ -156,8 +155,9 @@ void h_pop(void) { h_init(); head_window_build(); item_t* r = intrusive_heap_pop
 void h_insert(void) { h_init(); head_window_build(); if (H.head_ == &W0 && W0.timerNext_ == &W1) { W0.timerNext_ = VF_nondet_bool() ? &W1 : OPAQUE; }
   intrusive_heap_insert(&H, &IT); VF_CANARY("after insert");
   if (H.head_ == &IT && IT.timerNext_ == NULL) { VF_CANARY("insert into an empty heap"); } else if (H.head_ == &IT) { VF_CANARY("insert at the head"); } else { VF_CANARY("insert after a member"); if (G.cur == &C) { VF_CANARY("insert after a member beyond the head"); } if (IT.timerNext_ != NULL) { VF_CANARY("insert between two members"); } } }
-void h_insert_loop0_body(void) { h_init(); item_t* cur = &C; C.timerNext_ = &N; N.timerPrev_ = &C; C.timerPrev_ = OPAQUE; N.timerNext_ = VF_nondet_bool() ? OPAQUE : NULL;
-  __CPROVER_assume(C.dueTime_ <= IT.dueTime_ && N.dueTime_ <= IT.dueTime_ && C.dueTime_ <= N.dueTime_); insert__loop0_body(&H, &IT, &cur); VF_CANARY("after walk step"); }
+void h_insert_loop0_body(void) { h_init(); item_t* cur = &C; C.timerPrev_ = OPAQUE;
+  if (VF_nondet_bool()) { C.timerNext_ = &N; N.timerPrev_ = &C; N.timerNext_ = VF_nondet_bool() ? OPAQUE : NULL; __CPROVER_assume(C.dueTime_ <= N.dueTime_); } else { C.timerNext_ = NULL; }
+  insert__loop0_body(&H, &IT, &cur); VF_CANARY("after walk step"); }
 void h_remove(void) { h_init(); member_window_build(); _Bool at_head = (H.head_ == &IT); _Bool has_succ = (IT.timerNext_ != NULL);
   intrusive_heap_remove(&H, &IT); VF_CANARY("after remove");
   /* local shape and order of the pair that has become adjacent */
